@@ -396,6 +396,7 @@ def run(ctx):
         items = [(nm, n) for nm in ("to_bits(n)", "assert_positive(n)") for n in range(0, b + 3)]
         # unpacking secret bits declares a bounded integer: values >= mod (all-ones patterns included) must be unsatisfiable
         items += [(nm, m_) for nm in ("PackIntMod(m).unpack(LinComb bits)", "PackIntMod(m).unpack(pack(x))") for m_ in (1, 2, 3, 5, 6, 7, 8)]
+        items += [("from_bits([x, y]).assert_positive(n)", 2), ("from_bits([x, y]).assert_positive(n)", 3), ("from_bits([x + y, y]).to_bits(n)", 2)]
         total.merge_json(core.run_shards("harness.checks.c16", "enforce_shard",
                                          [dict(items=items[i::8], p=p, b=b) for i in range(8)]).to_json())
     total.merge_json(core.run_shards("harness.checks.c16", "pack_shard",
